@@ -184,7 +184,9 @@ PROPS = {
         "assumptions": [],
         "not_decided": ["map_reconcile_keys as a whole (source re-pointing, incompatible key-source replacement, retired generations); "
                         "reconcile_compatible_key_source, create_entry_at_slot and remove_entry_at_slot are under contract",
-                        "each key's stream equals the mapped function run alone; fresh state after re-add; isolation of state (relational)",
+                        "each key's stream equals the mapped function run alone; fresh state after re-add; isolation of state (relational): "
+                        "not proved, only the bounded enumeration native:c10_map",
+                        "materialize_map_evaluation_slots (countr_zero / word &= word - 1 bit scan): bounded enumeration only",
                         "schedule coverage across a pause/resume of the evaluation loop (only the positions visited by one call)",
                         "tsl_map_node.cpp, mesh_node.cpp"],
     },
